@@ -76,7 +76,7 @@ func runC03(c *explore.Ctx) {
 	if c.Thorough() {
 		spaces = []crashSpace{{"E", "ROLL", 5}, {"E", "ROLL1", 4}, {"E", "BIGC", 4}, {"S2", "ROLL", 4}, {"S2", "ROLL1", 4}, {"CH", "ROLL", 3}, {"T", "BIGC", 4}, {"T3", "BIGC", 4}, {"S3", "ROLL", 3}, {"S4", "ROLL", 3}, {"SM", "ROLLM", 4}}
 	} else {
-		spaces = []crashSpace{{"E", "ROLL", 3}, {"E", "ROLL1", 3}, {"S2", "ROLL", 3}, {"S2", "ROLL1", 2}, {"CH", "ROLL", 2}, {"T", "BIGC", 3}, {"T3", "BIGC", 2}, {"SM", "ROLLM", 3}}
+		spaces = []crashSpace{{"E", "ROLL", 3}, {"E", "ROLL1", 3}, {"S2", "ROLL", 3}, {"S2", "ROLL1", 3}, {"CH", "ROLL", 2}, {"T", "BIGC", 3}, {"T3", "BIGC", 2}, {"SM", "ROLLM", 3}}
 	}
 	for _, sp := range spaces {
 		if c.Expired() || c.NViolations() > 0 {
